@@ -15,6 +15,18 @@ structure ValueStruct where
   value : Bytes
   deriving DecidableEq, Repr
 
+/-- loop of `sizeVarint` in kv/value.go: `for { n++; x >>= 7; if x == 0 { break } }`
+(at most 10 rounds for a uint64) -/
+def sizeVarintF : Nat → Nat → Nat
+  | 0, _ => 0
+  | f + 1, x => if x / 128 = 0 then 1 else 1 + sizeVarintF f (x / 128)
+
+/-- `sizeVarint(x)`: the number of bytes `binary.PutUvarint` emits for `x` -/
+def sizeVarint (x : Nat) : Nat := sizeVarintF 10 x
+
+/-- `ValueStruct.EncodedSize()` (before the `uint32` conversion) -/
+def valueEncodedSize (v : ValueStruct) : Nat := v.value.length + 1 + sizeVarint v.expiresAt
+
 def encodeValue (v : ValueStruct) : Bytes := [v.mt] ++ putUvarint v.expiresAt ++ v.value
 
 /-- `DecodeValue(buf)`: `buf[0]`, `Uvarint(buf[1:])`, `buf[1+sz:]` with no check at all
@@ -85,6 +97,9 @@ structure Entry where
   mt : Nat
   expiresAt : Nat
   deriving DecidableEq, Repr
+
+/-- `Entry.EncodedSize()`: value bytes plus the varint widths of meta and expiry -/
+def entryEncodedSize (e : Entry) : Nat := e.value.length + sizeVarint e.mt + sizeVarint e.expiresAt
 
 def encodeEntry (crc : Bytes → Nat) (e : Entry) : Bytes :=
   let body := encodeHeader ⟨e.key.length, e.value.length, e.mt, e.expiresAt⟩ ++ e.key ++ e.value
